@@ -18,7 +18,7 @@ from optimum.quanto.nn import QModuleMixin
 
 ACT = {"none": None, "qint8": O.QT8["qint8"], "qfloat8_e4m3fn": O.QT8["qfloat8_e4m3fn"], "qfloat8_e5m2": O.QT8["qfloat8_e5m2"]}
 SERIALIZERS = ["pickle", "weights_only", "safetensors"]
-TARGETS = ["same", "same", "default", "requantize", "same-frozen", "same-assign"]
+TARGETS = ["same", "same", "default", "requantize", "same-frozen", "same-assign", "other-qtype"]
 
 
 @st.composite
@@ -169,7 +169,13 @@ def _exec_history(case):
         if target == "requantize":
             r = cut(requantize, tgt, given)
         else:
-            if target in ("same", "same-frozen", "same-assign"):
+            if target == "other-qtype":
+                # a target quantized with ANOTHER weight qtype (same activations): loading restores the saved qtypes and
+                # everything that follows from them (the automatic group size of 8-bit weights is "none")
+                names = sorted(O.QTALL)
+                owq = O.QTALL[names[(names.index(case["wq"]) + 1 + case["seed"] % (len(names) - 1)) % len(names)]]
+                quantize(tgt, weights=owq, activations=aq)
+            elif target in ("same", "same-frozen", "same-assign"):
                 quantize(tgt, weights=wq, activations=aq)
                 if target == "same-frozen" and fz == "frozen":
                     # a frozen model reloaded over an already frozen model of the same architecture
